@@ -488,7 +488,9 @@ RAISING_MODEL = ['PYRAISE()', 'RAISE_NUM()+1', 'ID(RAISE_NA())', 'SUM(1,PYRAISE(
                  '{PYRAISE(),1}', 'RAISE_ERROR()=1', 'ISERROR(KEYRAISE())']
 RAISING_WILD = RAISING_MODEL + ['Z9', 'Z9+1', 'SUM(1,Z9)', 'Y8*2', 'IFERROR(Y8,0)', 'SUM(Y1:Z2)', 'badvar', 'badvar+va', 'BADFN()',
                                 'IFERROR(BADFN(),1)', 'EVALSELF("1+")', 'EVALSELF("PYRAISE()")', 'EVALSELF("Z9")',
-                                'CONCATENATE(RAISE_NUM(),Z9)', 'LARGE(Z9,1)', 'TEXT(Y8,"0")']
+                                'CONCATENATE(RAISE_NUM(),Z9)', 'LARGE(Z9,1)', 'TEXT(Y8,"0")',
+                                # evaluations that are aborted AFTER a reference has been read (what the host answered must not outlive them)
+                                'A1+badvar', 'A1+#REF!', 'A1*2+BADFN()', 'SUM(A1:B2)+badvar', 'A1+(', 'SUM(A1:B2))', 'A1&PYRAISE()&"x"']
 
 
 def generic_calls(rng, n):
@@ -529,7 +531,8 @@ REREG_MODEL = [['var', 'va', 54], ['var', 'va', 53], ['var', 'vb', -2], ['var', 
                ['cell', 'H8', 1], ['cell', 'H8', None], ['range', 'A1', 'B2', [[9, 9], [9, 9]]], ['range', 'A1', 'B2', [[1, 2], [3, 4]]],
                ['range', 'A1', 'A3', [1]], ['debug', True], ['debug', False]]
 REREG_WILD = REREG_MODEL + [['cell', 'Z9', 5], ['cell', 'Z9', {'raise': ['ValueError', 'listener boom']}], ['cell', 'A1', {'raise': ['KeyError', 'a1']}],
-                            ['cell', 'A1', 71], ['lvar', 'va', ['ValueError', 'va listener']], ['lvar', 'va', None],
+                            ['cell', 'A1', 71], ['cell', 'A1', 5], ['cell', 'A1', 'edited'], ['cell', 'A1', 71],
+                            ['lvar', 'va', ['ValueError', 'va listener']], ['lvar', 'va', None],
                             ['lfn', 'SUM', ['XLError', '#N/A']], ['lfn', 'SUM', None], ['lfn', 'ID', ['KeyError', 'id']], ['lfn', 'ID', None],
                             ['range', 'A1', 'B2', {'raise': ['XLError', '#NULL!']}], ['fn', 'EVALSELF', ['const', 0]],
                             ['fn', 'EVALSELF', ['evalself']]]
@@ -708,6 +711,11 @@ def cases(rng, ctx):
         if length > 100:        # keep the cost of a long history linear: a seeded half of the probe set
             probes = sorted(r.sample(probes, len(probes) // 2))
         out.append({'kind': 'history', 'model': model_only, 'blocks': blocks, 'probes': probes})
+    # a fixed history: an evaluation aborted after it has read A1, the host edits A1, the same reference is evaluated again
+    setup = [['new', False]] + [[r[0], 0] + r[1:] for r in std_regs(False)]
+    out.append({'kind': 'history', 'model': False, 'probes': ['A1&"x"', 'A1+1', 'SUM(A1:B2)'],
+                'blocks': [setup, [['parse', 0, 'A1+badvar']], [['cell', 0, 'A1', 5]], [['parse', 0, 'A1+#REF!']], [['cell', 0, 'A1', 'edited']],
+                           [['parse', 0, 'SUM(A1:B2))']], [['cell', 0, 'A1', 71]]]})
     # (b) debug
     forms = VALID_MODEL + VALID_WILD + ERRONEOUS + RAISING_WILD + WILD_PROBES
     if not thorough:
@@ -1145,15 +1153,18 @@ def host_values():
     """name -> fresh host object"""
     return {'lsa': [3, 1, 2], 'lsb': [9, 7, 8, 7], 'lsc': [2, 2, 1], 'nest': [[4, 2], [3, 1]], 'nestb': [[6, 5], [8, 7]],
             'mixed': ['b', 'a', None, True, 2.5, '10'], 'deep': [1, [2, [3, [0]]], -1], 'texts': ['pear', 'apple', 'fig'],
-            'dct': {'k': [2, 1], 'j': 5}, 'box': Box([2, 1, 3]), 'tup': (3, 1, [2, 0]), 'empty': [], 'one': [5]}
+            'dct': {'k': [2, 1], 'j': 5}, 'box': Box([2, 1, 3]), 'tup': (3, 1, [2, 0]), 'empty': [], 'one': [5],
+            'trail': [3, 7, 9, None, None]}          # a column with blank cells at its end
 
 
-ARGSETS = {1: [('lsa',), ('nest',), ('mixed',), ('deep',), ('texts',), ('dct',), ('box',), ('tup',), ('empty',), ('one',)],
+ARGSETS = {1: [('lsa',), ('nest',), ('mixed',), ('deep',), ('texts',), ('dct',), ('box',), ('tup',), ('empty',), ('one',), ('trail',)],
            2: [('lsa', 'lsb'), ('nest', 'lsa'), ('lsa', '2'), ('2', 'lsa'), ('mixed', '1'), ('"a"', 'texts'), ('lsa', 'lsa'),
-               ('nest', 'nestb'), ('lsb', '">7"'), ('texts', '"a*"'), ('deep', '2'), ('lsa', '"1"'), ('tup', '1'), ('one', 'one')],
+               ('nest', 'nestb'), ('lsb', '">7"'), ('texts', '"a*"'), ('deep', '2'), ('lsa', '"1"'), ('tup', '1'), ('one', 'one'),
+               ('7', 'trail'), ('trail', '7'), ('trail', 'lsa')],
            3: [('lsa', 'lsb', 'lsc'), ('lsa', '2', '1'), ('2', 'lsa', '1'), ('1', '2', 'lsa'), ('nest', '1', '1'), ('nest', '2', '2'),
                ('mixed', '"a"', 'lsa'), ('lsa', '">1"', 'lsc'), ('lsc', 'lsa', '">1"'), ('","', 'TRUE', 'texts'), ('lsa', 'lsa', 'lsa'),
-               ('TRUE', 'lsa', 'nest'), ('nest', 'nestb', 'lsa')]}
+               ('TRUE', 'lsa', 'nest'), ('nest', 'nestb', 'lsa'), ('7', 'trail', '0'), ('7', 'trail', '1'), ('8', 'trail', '-1'),
+               ('trail', '1', '1'), ('trail', '">3"', 'trail')]}
 PATHS = ['var', 'cell', 'range', 'fn']
 PATH_TEXT = {'lsa': {'cell': 'C1', 'range': 'C1:C3', 'fn': 'H_LSA()'}, 'lsb': {'cell': 'D1', 'range': 'D1:D4', 'fn': 'H_LSB()'},
              'lsc': {'cell': 'E1', 'range': 'E1:E3', 'fn': 'H_LSC()'}, 'nest': {'cell': 'C5', 'range': 'C5:D6', 'fn': 'H_NEST()'},
@@ -1161,7 +1172,7 @@ PATH_TEXT = {'lsa': {'cell': 'C1', 'range': 'C1:C3', 'fn': 'H_LSA()'}, 'lsb': {'
              'deep': {'cell': 'H1', 'range': 'H1:H3', 'fn': 'H_DEEP()'}, 'texts': {'cell': 'I1', 'range': 'I1:I3', 'fn': 'H_TEXTS()'},
              'dct': {'cell': 'J1', 'range': 'J1:J2', 'fn': 'H_DCT()'}, 'box': {'cell': 'K1', 'range': 'K1:K2', 'fn': 'H_BOX()'},
              'tup': {'cell': 'L1', 'range': 'L1:L3', 'fn': 'H_TUP()'}, 'empty': {'cell': 'M1', 'range': 'M1:M2', 'fn': 'H_EMPTY()'},
-             'one': {'cell': 'N1', 'range': 'N1:N2', 'fn': 'H_ONE()'}}
+             'one': {'cell': 'N1', 'range': 'N1:N2', 'fn': 'H_ONE()'}, 'trail': {'cell': 'O1', 'range': 'O1:O5', 'fn': 'H_TRAIL()'}}
 
 
 class HostEnv(object):
